@@ -15,6 +15,8 @@ package klog
 //@ type shouldTotal invariant typeis(self.Duration, *duration)
 //@ type timeRange invariant typeis(self.start, *time) && typeis(self.end, *time) && off(self.end) >= off(self.start)
 //@ type openRange invariant typeis(self.start, *time)
+// A record has a date, well-formed entries and (if any) a should-total wrapping a plain duration.
+//@ type record invariant (isnil(self.date) || typeis(self.date, *date)) && forall(i, 0, len(self.entries), ekind(self.entries[i])) && (isnil(self.shouldTotal) || typeis(self.shouldTotal, shouldTotal))
 
 // ---------------------------------------------------------------------------------------------
 // Specification functions
@@ -190,9 +192,58 @@ package klog
 // ---------------------------------------------------------------------------------------------
 // Entries and records
 
+// edur(e): the duration an entry contributes to the total: range -> end - start (shifted times are offsets on the
+// neighbouring days), duration -> its minutes, open range -> 0.
 //@ spec edur(e Entry) int = ite(typeis(e.value, *timeRange), off(e.value.(*timeRange).end) - off(e.value.(*timeRange).start), ite(typeis(e.value, *duration), e.value.(*duration).minutes, ite(typeis(e.value, shouldTotal), e.value.(shouldTotal).Duration.(*duration).minutes, 0)))
 //@ spec ekind(e Entry) bool = typeis(e.value, *timeRange) || typeis(e.value, *duration) || typeis(e.value, *openRange) || typeis(e.value, shouldTotal)
 
 //@ func (*Entry).Duration
-//@ requires ekind(*e)
+//@ requires e != nil && ekind(*e) && fits(edur(*e))
 //@ ensures typeis(result, *duration) && result.(*duration).minutes == edur(*e)
+
+//@ func NewRecord
+//@ requires isnil(date) || typeis(date, *date)
+//@ ensures typeis(result, *record) && fresh(result) && result.(*record).date == date && len(result.(*record).entries) == 0 && isnil(result.(*record).shouldTotal) && isnil(result.(*record).summary)
+
+//@ func (*record).ShouldTotal
+//@ ensures nonnil(result) && result.InMinutes() == ite(isnil(r.shouldTotal), 0, r.shouldTotal.InMinutes())
+
+//@ func (*record).SetShouldTotal
+//@ requires nonnil(t) && fits(t.InMinutes())
+//@ modifies r.shouldTotal
+//@ ensures typeis(r.shouldTotal, shouldTotal) && r.shouldTotal.InMinutes() == t.InMinutes()
+
+//@ func (*record).SetEntries
+//@ requires forall(i, 0, len(es), ekind(es[i]))
+//@ modifies r.entries
+//@ ensures same(r.entries, es)
+
+//@ func (*record).AddDuration
+//@ requires nonnil(d)
+//@ modifies r.entries
+//@ ensures len(r.entries) == old(len(r.entries)) + 1 && r.entries[len(r.entries)-1].value == d
+
+//@ func (*record).AddRange
+//@ requires typeis(tr, *timeRange)
+//@ modifies r.entries
+//@ ensures len(r.entries) == old(len(r.entries)) + 1 && r.entries[len(r.entries)-1].value == tr
+
+//@ func (*record).OpenRange
+//@ ensures implies(nonnil(result), typeis(result, *openRange))
+//@ ensures isnil(result) == forall(i, 0, len(r.entries), !typeis(r.entries[i].value, *openRange))
+//@ loop 1 invariant forall(i, 0, rangeindex+1, !typeis(r.entries[i].value, *openRange))
+
+//@ func (*record).Start
+//@ requires typeis(or, *openRange)
+//@ modifies r.entries
+//@ ensures (result != nil) == old(exists(i, 0, len(r.entries), typeis(r.entries[i].value, *openRange)))
+//@ ensures implies(result == nil, len(r.entries) == old(len(r.entries)) + 1 && r.entries[len(r.entries)-1].value == or)
+//@ ensures implies(result != nil, same(r.entries, old(r.entries)))
+
+// EndOpenRange: replaces the (first) open range by a range ending at `end`; fails if there is none or the end
+// lies before the start.
+//@ func (*record).EndOpenRange
+//@ requires typeis(end, *time)
+//@ modifies r.entries, elems(r.entries)
+//@ ensures implies(result == nil, len(r.entries) == old(len(r.entries)))
+//@ loop 1 invariant forall(i, 0, rangeindex+1, !typeis(r.entries[i].value, *openRange)) && forall(i, 0, len(r.entries), ekind(r.entries[i]))
